@@ -1,5 +1,11 @@
 mod storage;
 
+/// Verification hook (compiled only with `--cfg aquatic_verif`): re-export of the private storage.
+#[cfg(aquatic_verif)]
+pub mod verif_storage {
+    pub use super::storage::*;
+}
+
 use std::cell::RefCell;
 use std::rc::Rc;
 use std::time::Duration;
